@@ -396,6 +396,25 @@ func execCopy(c *CopyCase, st *Stats) *Violation {
 			return v
 		}
 	}
+	// final observation: every observer on every node and its twin
+	allObs := strings.Join(observeFragments, "\n")
+	for _, n := range nodes {
+		tn, tt := len(crtOf(n.vm).trace), len(crtOf(n.twin).trace)
+		r1 := runOn(n.vm, allObs, -1)
+		r2 := runOn(n.twin, allObs, -1)
+		if r1 != r2 {
+			return viol("C17", "result_diverged", "final observation on node %d: node gives %q, its replay twin %q", n.id, clip(r1), clip(r2))
+		}
+		a, b := crtOf(n.vm).trace[tn:], crtOf(n.twin).trace[tt:]
+		if len(a) != len(b) {
+			return viol("C17", "trace_diverged", "final observation on node %d: %d host calls on the node, %d on the twin; %s", n.id, len(a), len(b), firstDiff(a, b))
+		}
+		for i := range a {
+			if a[i] != b[i] {
+				return viol("C17", "trace_diverged", "final observation on node %d, host call %d: node %q twin %q", n.id, i, clip(a[i]), clip(b[i]))
+			}
+		}
+	}
 	sig, copied, after := "", false, false
 	for _, op := range c.Ops {
 		sig += op.Kind[:1] + strconv.Itoa(op.Node) + strconv.Itoa(op.MKind)
